@@ -103,6 +103,63 @@ pub fn corr(ctx: &mut Ctx) {
             Some(Err(_)) => "unfilter_err",
             None => "unfilter_panic",
         });
+        // alpha optimisation: rows of whole pixels with transparent runs
+        if !malformed && bpp >= 2 {
+            let ab = if bpp == 4 || bpp == 2 { 1 } else if bpp == 8 { 2 } else if bpp == 6 { 0 } else { 0 };
+            if ab != 0 {
+                let mut d3 = data.clone();
+                let tclass = rng.below(5);
+                for px in d3.chunks_exact_mut(bpp) {
+                    let t = match tclass {
+                        0 => true,
+                        1 => false,
+                        _ => rng.chance(1, 2),
+                    };
+                    if t {
+                        for b in &mut px[bpp - ab..] {
+                            *b = 0;
+                        }
+                    } else if px[bpp - ab..].iter().all(|b| *b == 0) {
+                        px[bpp - 1] = 1 + rng.below(255) as u8;
+                    }
+                }
+                let orig = d3.clone();
+                let r = catch(|| {
+                    let out = verif::filter_line(rf(ft), bpp, &mut d3, &prev, ab);
+                    (d3.clone(), out)
+                });
+                let ans = match &r {
+                    Some((d, o)) => format!("ok {} {}", hex(d), hex(o)),
+                    None => "panic".into(),
+                };
+                ctx.line(
+                    &format!("filter_line_alpha {} {} {} {} {}", ft, bpp, hex(&orig), hex(&prev), ab),
+                    &ans,
+                );
+                st.count(&format!("alpha_ft{}", ft));
+                // oracle: only colour bytes of fully transparent pixels may change, and the
+                // filtered line reconstructs to the rewritten data
+                if let Some((d, o)) = &r {
+                    let mut bad = d.len() != orig.len();
+                    for (po, pn) in orig.chunks_exact(bpp).zip(d.chunks_exact(bpp)) {
+                        let transparent = po[bpp - ab..].iter().all(|b| *b == 0);
+                        if po[bpp - ab..] != pn[bpp - ab..] || (!transparent && po != pn) {
+                            bad = true;
+                        }
+                    }
+                    if !bad && (o.is_empty() || recon_row_ref(o[0], bpp, &o[1..], &prev) != *d) {
+                        bad = true;
+                    }
+                    if bad {
+                        st.fail(
+                            "alpha-line",
+                            format!("filter_line with alpha optimisation changed visible data (filter {ft}, bpp {bpp})"),
+                            format!("{{\"data\": {}, \"prev\": {}}}", jstr(&hex(&orig)), jstr(&hex(&prev))),
+                        );
+                    }
+                }
+            }
+        }
         // the specification function of the Lean side against the harness's reference
         if !malformed {
             ctx.line(
